@@ -156,6 +156,20 @@ class C22(UICheck):
                     if tier == "quick" and rng.random() < 0.6 and pos not in (0, L - 1):
                         continue
                     session(kind, [cmd("", ["goto", str(pos)], [{"kind": "num", "v": pos}]), cmd("", ["find"] + pat_toks)])
+            # after a block move (listing rebuilt, blocks of different sizes change places): every command that maps lines to
+            # blocks and instructions, on every line
+            hdrs = {1: [0, 5, 9], 2: [0, 3, 8], 3: [0, 6]}.get(kind, [])
+            for a in hdrs:
+                for b in hdrs:
+                    if a == b:
+                        continue
+                    bm = cmd("", ["move", str(a), str(b)])
+                    for l0 in range(0, L, 4):
+                        session(kind, [bm] + [cmd("", ["bounds", str(l)]) for l in range(l0, min(L, l0 + 4))] +
+                                [{"case": "", "op": "render", "n": 8}, cmd("", ["entry"]), cmd("", ["e"]), cmd("", ["s"])])
+                    for l in range(1, L - 1):
+                        session(kind, [bm, cmd("", ["move", str(l), str(l + 1)]), cmd("", ["move", str(l + 1), str(l)]),
+                                       cmd("", ["bounds", str(l)]), {"case": "", "op": "render", "n": 8}])
             # arity / spacing / unknown commands / empty input
             odd = [cmd("", []), cmd("", [], seps=[3]), cmd("", ["down"]), cmd("", ["move", "1"], [{"kind": "num", "v": 1}]),
                    cmd("", ["goto", "1", "2"], [{"kind": "num", "v": 1}, {"kind": "num", "v": 2}]), cmd("", ["nosuch"]),
@@ -376,6 +390,13 @@ class C24(UICheck):
                         [rend(n) for n in (5, 6, 7, 8, 12, 40, 200)])
                 session(kind, [cmd("", ["entry"]), cmd("", ["e"]), rend(9), cmd("", ["s"]), cmd("", ["memory", key]), rend(9),
                                cmd("", ["q"]), rend(9), cmd("", ["s"]), rend(9), cmd("", ["memory", key]), rend(7)])
+        # heights taken from what the view itself declares: exactly its minimum, and 1-3 lines more
+        relr = lambda k: {"case": "", "op": "render", "n": k, "rel": True}
+        for kind in range(4):
+            for key in ("memory", "nokey"):
+                for steps in (0, 1, 3):
+                    session(kind, [cmd("", ["entry"]), cmd("", ["e"])] + [cmd("", ["s"])] * steps + [relr(0), relr(1), relr(3)] +
+                            [cmd("", ["memory", key]), relr(0), relr(1), relr(2), relr(4), cmd("", ["q"]), relr(0), cmd("", ["q"]), relr(0), relr(2)])
         layouts = [[], [[0, 8]], [[5, 8]], [[0, 8], [64, 4]], [[16, 8], [24, 8], [32, 8]], [[0, 8], [4096, 8], [65536, 2]],
                    [[i * 40, 8] for i in range(12)], [[8, 1], [300, 8], [301, 2]]]
         for nregs in range(0, 34):
@@ -388,6 +409,11 @@ class C24(UICheck):
             for n in (5, 6, 7, 9, 12, 20, 40, 200):
                 gs.append([{"case": "p%d" % k[0], "op": "parts", "which": "mem", "nregs": 0, "withip": False, "stores": lay, "n": n}])
                 k[0] += 1
+                if n <= 7:
+                    for which, nr in (("mem", 0), ("regs+mem", 3), ("mem+mem", 0), ("regs", 5)):
+                        gs.append([{"case": "p%d" % k[0], "op": "parts", "which": which, "nregs": nr, "withip": True, "stores": lay,
+                                    "n": n - 5, "rel": True}])
+                        k[0] += 1
                 for which, nr in (("regs+mem", 4), ("mem+mem", 0), ("regs+mem", 9)):
                     m = {"regs+mem": (nr + 1) // 2 + 5 + 1, "mem+mem": 11}[which]
                     gs.append([{"case": "p%d" % k[0], "op": "parts", "which": which, "nregs": nr, "withip": True, "stores": lay, "n": max(n, m) + (n % 3)}])
